@@ -204,13 +204,18 @@ def replay(lab, path):
         rp = json.load(fh)["replay"]
     sc = rp["scenario"]
     steps = sc.get("steps") or sc.get("obs")
-    results = exec_scenarios(lab, [{"id": 0, "steps": steps}], 0, 1, shards=1)
-    print(json.dumps(results[0], indent=1))
-    over = amplification_oracle(results[0])
-    tr = validate_trace(trace_lines(results), "replay")
-    if over or not tr.ok:
+    res = exec_scenarios(lab, [{"id": 0, "steps": steps}], 0, 1, shards=1)[0]
+    print(json.dumps(res, indent=1))
+    bad = bool(amplification_oracle(res))
+    for svc, ip in sorted({(o["svc"], o["ip"]) for o in res["obs"]}):
+        b, detail = solo_interference(lab, res, svc, ip)
+        if b:
+            print("interference", svc, ip, detail)
+            bad = True
+    if bad:
         print("VIOLATION property=C10 replay=%s" % path)
         return 1
+    print("C10 replay: property-level predicates hold")
     return 0
 
 
